@@ -104,6 +104,12 @@ func (o *C17) AfterTx(w *World, r *TxResult) {
 		km := w.keyModelOf(chain)
 		want, isOrch := km.orchVal[r.Tx.Signer]
 		if !isOrch {
+			// an accepted claim is somebody's vote: its sender must be a validator's own account or an orchestrator
+			// that a validator registered (a registration that was rolled back with its transaction registered nothing)
+			w.St.Check("C17:attribution")
+			if _, ok := w.valOfSigner(chain, r.Tx.Signer); !ok {
+				w.Fail("C17", "attribution", "stranger", fmt.Sprintf("%s: a claim sent by %s, which no validator registered as its orchestrator, was accepted as a vote", chain, r.Tx.Signer))
+			}
 			return
 		}
 		for _, n := range parseNonces(r.Tx.Meta["nonces"]) {
